@@ -15,8 +15,9 @@ RULE = ("Case = generated recording (probe metadata with 1..384 channels, or a m
         "multiple of the chunk; chunk 7..97 samples; 1/2 compression threads) + a history of 3..8 operations drawn by "
         "Hypothesis (model-based): compress(keep), decompress(keep, overwrite), decompress_to_scratch(dir|same folder), "
         "reopen through the bin / cbin / meta path, each optionally with a failure injected. For every compress / scratch "
-        "operation of the history ALL fault points are enumerated (failure at every chunk index, in the "
-        "post-compression verification and at the publishing rename) on a copy of the directory. Oracle: (a) reads through cbin == reads through bin == "
+        "operation of the history ALL fault points are enumerated (an I/O error at every chunk index, in the "
+        "post-compression verification and at the publishing rename, and a process death (BaseException) before every "
+        "compression batch / while the scratch output is open) on a copy of the directory. Oracle: (a) reads through cbin == reads through bin == "
         "the written data for every (start, stop) within +-2 of every chunk boundary with steps 1..5 and drawn others; "
         "(b) decompressed bytes SHA-1 == original; (c) bin / cbin / meta entry points give the same shape and values; (d) "
         "after an injected failure no new *.cbin (resp. scratch *.bin) carries the final name, the source bytes are "
@@ -24,11 +25,12 @@ RULE = ("Case = generated recording (probe metadata with 1..384 channels, or a m
         "every step the original bytes are recoverable from what is on disk (model invariant). Non-trivial = >= 3 chunks "
         "with a short last chunk AND (a boundary-crossing slice compared OR an injected failure). evaluations = histories; "
         "fault points per history are enumerated completely and counted in the class histogram. Distinct = case hash.")
-ASSUMPTIONS = ["a failure is an OSError raised by the k-th chunk (de)compression call or by the verification step; a power "
-               "cut tearing an unflushed buffer is not modelled",
+ASSUMPTIONS = ["a failure is an OSError raised by the k-th chunk (de)compression call, by the verification step or by the publishing "
+               "rename, or a BaseException (process death) raised in the calling thread between batches; a power cut tearing an "
+               "unflushed buffer is not modelled",
                "after a failed in-place decompression the harness deletes the partial .bin before continuing (the property "
                "only forbids losing the source there)"]
-BUDGET = {"quick": 480, "thorough": 8000}
+BUDGET = {"quick": 320, "thorough": 8000}
 SHRINK = {"quick": False, "thorough": True}
 
 
@@ -212,26 +214,42 @@ def _do_compress(w, o, fault_at=None, fault_kind=None):
         return "crash"
     kw = dict(keep_original=o["keep"], chunk_duration=w.case["chunk"] / w.fs, n_threads=w.case["threads"],
               check_after_compress=bool(o["check"] or fault_kind == "check"))
-    cnt = faults.Counter(fail_at=fault_at)
+    cnt = faults.Counter(fail_at=fault_at, exc=faults.Crash if fault_kind == "kill" else faults.InjectedFault)
     targets = []
     if fault_kind == "chunk":
         targets = [(mtscomp.Writer, "_compress_chunk", "compress_chunk", "before")]
     elif fault_kind == "check":
         targets = [(mtscomp, "check", "verify", "before")]
     elif fault_kind == "rename":
-        targets = [(Path, "rename", "rename", "before")]
+        # whatever call publishes the finished file under its final name
+        import os as _os
+        targets = [(Path, "rename", "rename", "before"), (Path, "replace", "rename", "before"), (_os, "rename", "rename", "before"),
+                   (_os, "replace", "rename", "before"), (shutil, "move", "rename", "before")]
+    elif fault_kind == "kill":
+        # the process dies (BaseException: no `except Exception` clean-up runs) before batch number fault_at is compressed;
+        # compress_batch runs in the calling thread for every thread count
+        targets = [(mtscomp.Writer, "compress_batch", "compress_batch", "before")]
+    killed = False
+    r = None
     try:
         with faults.patched(cnt, targets):
-            r = ctx.call("C02.compress_file", sr.compress_file, expect=(faults.InjectedFault,), **kw)
+            try:
+                r = ctx.call("C02.compress_file", sr.compress_file, expect=(faults.InjectedFault,), **kw)
+            except faults.Crash:
+                killed = True
     finally:
         try:
             sr.close()
         except Exception:  # noqa
             pass
+    if killed:
+        return "fault"
     if r is ctx.CRASH:
         return "crash"
-    if isinstance(r, faults.InjectedFault) or cnt.fired:
+    if isinstance(r, faults.InjectedFault):
         return "fault"
+    if cnt.fired:
+        return "swallowed"  # the injected error was caught inside the code under test and the call returned normally
     ctx.check(Path(r) == w.cbin, "C02.compress_return", lambda: f"compress_file returned {r}")
     return "ok"
 
@@ -249,7 +267,8 @@ def _check_after_compress_fault(w, before, where):
 def _enumerate_compress_faults(w, o, step):
     """All fault points of this compress operation, each on a fresh copy of the directory."""
     ctx = w.ctx
-    points = [("chunk", k) for k in range(w.nchunks)] + [("check", 0), ("rename", 0)]
+    nbatches = int(np.ceil(w.nchunks / w.case["threads"]))
+    points = [("chunk", k) for k in range(w.nchunks)] + [("check", 0), ("rename", 0)] + [("kill", b) for b in range(nbatches)]
     for kind, k in points:
         dst = w.d.parent / f"{w.d.name}_f{step}_{kind}{k}"
         w2 = _copy_world(w, ctx, dst)
@@ -266,7 +285,9 @@ def _enumerate_compress_faults(w, o, step):
                     w2.final_names_complete(f"retry after compress fault {kind}@{k}")
                     ctx.check(w2.has_bin() == bool(o["keep"]), "C02.keep_original", "keep_original not honoured on retry")
             elif res == "ok":
-                ctx.check(False, "C02.harness_fault_not_fired", f"fault {kind}@{k} never fired")
+                ctx.label("fault_point_absent_" + kind)  # e.g. an implementation that publishes without a rename
+            elif res == "swallowed":
+                ctx.fail("C02.fault_swallowed", f"step {step}: injected {kind}@{k} failure was swallowed, compress_file returned normally")
         finally:
             shutil.rmtree(dst, ignore_errors=True)
     w.faulted = True
@@ -279,21 +300,33 @@ def _do_scratch(w, o, fault_at=None):
     if sr is ctx.CRASH:
         return "crash", None
     sdir = (w.d / "scratch") if (o["dir"] and not w.flat) else None  # without metadata there is nothing to copy along
-    cnt = faults.Counter(fail_at=fault_at)
-    targets = [(mtscomp.Reader, "_decompress_chunk", "decompress_chunk", "before")] if fault_at is not None else []
+    kill = fault_at == "kill"
+    cnt = faults.Counter(fail_at=0 if kill else fault_at, exc=faults.Crash if kill else faults.InjectedFault)
+    if kill:  # process death while the output file is open (decompress_chunks runs in the calling thread)
+        targets = [(mtscomp.Reader, "decompress_chunks", "decompress_batch", "before")]
+    else:
+        targets = [(mtscomp.Reader, "_decompress_chunk", "decompress_chunk", "before")] if fault_at is not None else []
+    killed, r = False, None
     try:
         with faults.patched(cnt, targets):
-            r = ctx.call("C02.decompress_to_scratch", sr.decompress_to_scratch, expect=(faults.InjectedFault,),
-                         **({"scratch_dir": sdir} if sdir else {}))
+            try:
+                r = ctx.call("C02.decompress_to_scratch", sr.decompress_to_scratch, expect=(faults.InjectedFault,),
+                             **({"scratch_dir": sdir} if sdir else {}))
+            except faults.Crash:
+                killed = True
     finally:
         try:
             sr.close()
         except Exception:  # noqa
             pass
+    if killed:
+        return "fault", (sdir or w.d) / w.bin.name
     if r is ctx.CRASH:
         return "crash", None
-    if isinstance(r, faults.InjectedFault) or cnt.fired:
+    if isinstance(r, faults.InjectedFault):
         return "fault", (sdir or w.d) / w.bin.name
+    if cnt.fired:
+        return "swallowed", Path(r)
     return "ok", Path(r)
 
 
@@ -301,7 +334,7 @@ def _enumerate_scratch_faults(w, o, step):
     ctx = w.ctx
     if (not o["dir"] or w.flat) and w.has_bin():
         return  # nothing is decompressed: the existing .bin is returned
-    for k in range(w.nchunks):
+    for k in list(range(w.nchunks)) + ["kill"]:
         dst = w.d.parent / f"{w.d.name}_s{step}_{k}"
         w2 = _copy_world(w, ctx, dst)
         try:
@@ -316,7 +349,9 @@ def _enumerate_scratch_faults(w, o, step):
                 if ctx.check(res2 == "ok", "C02.retry_failed", lambda: f"retry after scratch fault @{k} did not succeed ({res2})"):
                     ctx.check(t2.exists() and _sha(t2) == w2.sha, "C02.scratch_bytes", "scratch file after retry is not the original")
             elif res == "ok":
-                ctx.check(False, "C02.harness_fault_not_fired", f"scratch fault @{k} never fired")
+                ctx.label("fault_point_absent_scratch")
+            elif res == "swallowed":
+                ctx.fail("C02.fault_swallowed", f"step {step}: injected scratch failure @{k} was swallowed")
         finally:
             shutil.rmtree(dst, ignore_errors=True)
     w.faulted = True
